@@ -1,5 +1,5 @@
 (** C02 -- One outstanding CALL per connection, written in acceptance order. *)
-From Verif Require Import Base.Prelude M1.Client M1.ClientProofs.
+From Verif Require Import Base.Prelude M1.Client M1.ClientProofs M1.Server M1.ServerInv.
 
 (** Client endpoint, schedule class S0 (at most one wake-up token pending for the pump; API calls,
     frames and connection callbacks are handler-atomic): the CALLs written are exactly the concluded
@@ -48,3 +48,40 @@ Theorem C02_client_written_prefix_of_accepted : forall c t ls, Forall wf_lab ls 
   let s := run ls (init c t) in exists rest, acc (tr s) = wrs (tr s) ++ rest.
 Proof. exact written_prefix_of_accepted_S1. Qed.
 Print Assumptions C02_client_written_prefix_of_accepted.
+
+(** Server endpoint (central system / CSMS), EVERY schedule -- any interleaving of sends, replies, timeout
+    notifications, write failures, connects, disconnects, Stop / Start and the iterations of the message pump, for any
+    number of clients: whenever a CALL is handed to the network for client [c], no CALL of [c] is outstanding
+    ([outst] reads the trace older than that write; the session end [SDrop] is a ghost event of the model) ... *)
+Theorem C02_server_write_only_when_idle : forall cap d ls c r newer older, Forall wf_slab ls ->
+  str (srun ls (sinit cap d)) = newer ++ SWr c r :: older -> outst c older = Some 0.
+Proof. exact s_write_only_when_idle_S1. Qed.
+Print Assumptions C02_server_write_only_when_idle.
+
+(** ... every conclusion by the OCPP-J layer (reply, timeout, failed write) concludes the CALL outstanding for that
+    client at that moment -- never another one, never one twice ... *)
+Theorem C02_server_conclusion_matches_outstanding : forall cap d ls c r k newer older, Forall wf_slab ls ->
+  str (srun ls (sinit cap d)) = newer ++ SConc c r k :: older -> outst c older = Some r.
+Proof. exact s_conclusion_matches_outstanding_S1. Qed.
+Print Assumptions C02_server_conclusion_matches_outstanding.
+
+(** ... and the outstanding CALL is the dispatcher's pending id, which is the head of that client's queue: CALLs are
+    written in the order in which they were accepted. *)
+Theorem C02_server_outstanding_is_pending_head : forall cap d ls c, Forall wf_slab ls ->
+  let s := srun ls (sinit cap d) in
+  outst c (str s) = Some (pendof s c) /\ (pendof s c <> 0 -> exists t, qof s c = Some (pendof s c :: t)).
+Proof. exact s_outstanding_is_pending_head_S1. Qed.
+Print Assumptions C02_server_outstanding_is_pending_head.
+
+(** the server statements are exercised by a schedule with two clients, a reply, a timeout, a failed write and a
+    disconnection with a request outstanding: six CALLs written, the monitor accepts *)
+Theorem C02_server_nonvacuous :
+  let ls := [SStart; Connect 1; Connect 2; SSend 1 11 true; SSend 1 12 true; SSend 2 21 true; SPumpReq; SPumpReq; SPumpReq;
+             SReply 1 11 0; SPumpReady; TimerTok 1; SPumpTimer; SPumpReady; SNetFail 2 true; SSend 2 22 true; SReply 2 21 0; SPumpReq; SPumpReady;
+             SPumpReady; SSend 1 13 true; SPumpReq; Disconnect 1; SPumpReq; Connect 1; SSend 1 14 true; SPumpReq] in
+  let s := srun ls (sinit 0 true) in
+  Forall wf_slab ls /\
+  map (fun e => match e with SWr c r => r | _ => 0 end) (filter (fun e => match e with SWr _ _ => true | _ => false end) (rev (str s))) = [11; 21; 12; 22; 13; 14] /\
+  outst 1 (str s) = Some 14 /\ outst 2 (str s) = Some 0.
+Proof. exact s_S1_demo. Qed.
+Print Assumptions C02_server_nonvacuous.
